@@ -192,7 +192,8 @@ Print Assumptions C02_run_is_translation_of_source.
 (** The conflict-copy names are the translation of the source as it is now: bidir.rs `short_hex` / wire.rs `short_hash`
     give the first six digest bytes as twelve lower-case hexadecimal digits; the name built in `apply` is
     `<rel>.conflict-<host>-<digits>` ([bi_cname] - the function of the name-format theorem); the hub's name built in
-    `handle_put` is `<dst>.conflict-<digits>` ([conflict_name] of Model/SafeJoin.v) (Gen/ConflictNameGen.v,
+    `handle_put` is `<dst>.conflict-<digits>` ([conflict_name] of Model/SafeJoin.v); the staging name of `create_staging` is the
+    destination path plus a slash-free suffix ending in `.copia-tmp` (Gen/ConflictNameGen.v,
     Proofs/TieConflictName.v). *)
 Require Copia.Proofs.TieConflictName.
 Theorem C02_conflict_names_are_translation_of_source : TieConflictName.conflict_name_is_translation.
